@@ -391,6 +391,7 @@ def main():
     ap.add_argument('--seeded', action='store_true', help='also run the sub-agent changes kept under /verif/seeded')
     ap.add_argument('--tier', default='quick')
     ap.add_argument('--show', action='store_true')
+    ap.add_argument('--no-replay-check', action='store_true')
     args = ap.parse_args()
     todo = list(MUTANTS)
     if args.seeded:
@@ -401,6 +402,7 @@ def main():
     if args.prop:
         todo = [m for m in todo if m['prop'] == args.prop]
     missed = 0
+    replays_checked, replays_bad = [0], [0]
     for m in todo:
         d = make_copy()
         try:
@@ -416,6 +418,24 @@ def main():
             rc, out, wall = run_check(m['prop'], d, args.tier)
             clauses = sorted({ln.split('clause=')[1].split()[0] for ln in out.splitlines() if 'clause=' in ln})
             verdict = {1: 'DETECTED', 0: 'MISSED', 2: 'HARNESS-ERROR'}.get(rc, 'rc=%d' % rc)
+            if rc == 1 and not args.no_replay_check:
+                # every reported violation must replay, minimised, in a fresh process: same clause, same digest
+                paths = [ln.split('replay=')[1].strip() for ln in out.splitlines() if ln.startswith('VIOLATION ') and 'replay=' in ln]
+                bad = 0
+                for rp in paths[:3]:
+                    env = dict(os.environ)
+                    env.pop('VERIF_INNER', None)
+                    r2 = subprocess.run([os.path.join(VERIF, 'bin/check'), m['prop'], '--repo', d, '--replay', rp], env=env,
+                                        stdout=subprocess.PIPE, stderr=subprocess.STDOUT, text=True, cwd=VERIF)
+                    if r2.returncode != 1 or 'same_as_recorded=True digest_match=True' not in r2.stdout:
+                        bad += 1
+                    try:
+                        os.remove(rp)
+                    except OSError:
+                        pass
+                verdict += '' if not bad else '+REPLAY-MISMATCH(%d)' % bad
+                replays_checked[0] += len(paths[:3])
+                replays_bad[0] += bad
             tests = ''
             if args.with_tests:
                 tests = ' | tests: ' + run_tests(d)
@@ -431,7 +451,10 @@ def main():
         finally:
             shutil.rmtree(d, ignore_errors=True)
         sys.stdout.flush()
-    print('%d mutants, %d with an unexpected verdict' % (len(todo), missed))
+    print('%d mutants, %d with an unexpected verdict; %d replay files re-executed in fresh processes, %d mismatches'
+          % (len(todo), missed, replays_checked[0], replays_bad[0]))
+    if replays_bad[0]:
+        missed += 1
     return 1 if missed else 0
 
 
